@@ -33,12 +33,17 @@
 //          individual.  ops: c cpp mql py list dump inline tree graphviz long short pf<n>
 //          (= out::print_format(print_format_t(n))) print fresh (a new stream)
 //
+//   repl <s-hex> <from-hex> <to-hex>
+//       -> hex of vita::replace_all(s, from, to) (src/utility/utility.cc): the routine language() puts
+//          the rendering of an argument in place of a placeholder with, called directly
+//
 // keys: `real::abs` ... (class names), `const:d:<hex text>`, `const:i:<hex text>`,
 //       `const:s:<hex text>`, `var:<hex name>:<index>`.
 // cats: comma separated category vector handed to the constructor.
 #include "common/verif.h"
 
 #include "kernel/vita.h"
+#include "utility/utility.h"
 #include "kernel/gp/src/primitive/bool.h"
 #include "kernel/gp/src/primitive/int.h"
 #include "kernel/gp/src/primitive/real.h"
@@ -370,6 +375,11 @@ int main()
         d << out::python_language << tm;
         std::cout << verif::hex(a.str()) << " " << verif::hex(b2.str()) << " " << verif::hex(c.str())
                   << " " << verif::hex(d.str()) << "\n";
+      }
+      else if (t[0] == "repl" && t.size() == 4)
+      {
+        std::cout << verif::hex(vita::replace_all(verif::unhex(t[1]), verif::unhex(t[2]), verif::unhex(t[3])))
+                  << "\n";
       }
       else if (t[0] == "stream")
       {
